@@ -60,6 +60,16 @@ theorem open_seal (key nonce dst pt ad : Bytes) (hn : nonce.length = 12) (hp : p
   rw [← hct, List.take_left, List.drop_left]
   simp [xorStream_involutive]
 
+/-- non-vacuity: a concrete Seal / Open pair with a dst prefix, a 3-byte message and a 13-byte ad -/
+example : aeadSeal (zeros 32) (zeros 12) [9] [1, 2, 3] (zeros 13) = some ([9] ++ sealSpec (zeros 32) (zeros 12) [1, 2, 3] (zeros 13)) ∧
+    aeadOpen (zeros 32) (zeros 12) [9] (sealSpec (zeros 32) (zeros 12) [1, 2, 3] (zeros 13)) (zeros 13) = .ok [9, 1, 2, 3] :=
+  ⟨seal_eq_spec _ _ _ _ _ (by simp [zeros]) (by simp [maxPlaintext]) (by simp [zeros]),
+   open_seal _ _ _ _ _ (by simp [zeros]) (by simp [maxPlaintext]) (by simp [zeros])⟩
+
+/-- both panic conditions of `seal_panics_iff` occur: a 13-byte nonce panics -/
+example : aeadSeal (zeros 32) (zeros 13) [] [] [] = none :=
+  (seal_panics_iff _ _ _ _ _ (by simp)).mpr (Or.inl (by simp [zeros]))
+
 example : aeadSeal (zeros 32) (zeros 12) [] [] [] ≠ none := by
   rw [seal_eq_spec _ _ _ _ _ (by simp [zeros]) (by simp [maxPlaintext]) (by simp)]; simp
 
@@ -91,5 +101,10 @@ theorem xopen_xseal (key nonce dst pt ad : Bytes) (hn : nonce.length = 24) (hp :
   rw [if_neg (by simp [C03.xnonce, zeros, hn]), if_neg (by omega), if_neg (by omega)] at h
   rw [if_neg (by simp [hn]), if_neg (by omega), if_neg (by omega)]
   exact h
+
+example : xaeadSeal (zeros 32) (zeros 24) [9] [1, 2, 3] [5] = some ([9] ++ xsealSpec (zeros 32) (zeros 24) [1, 2, 3] [5]) ∧
+    xaeadOpen (zeros 32) (zeros 24) [9] (xsealSpec (zeros 32) (zeros 24) [1, 2, 3] [5]) [5] = .ok [9, 1, 2, 3] :=
+  ⟨xseal_eq_spec _ _ _ _ _ (by simp [zeros]) (by simp [maxPlaintext]) (by simp),
+   xopen_xseal _ _ _ _ _ (by simp [zeros]) (by simp [maxPlaintext]) (by simp)⟩
 
 end XC.C01
